@@ -15,6 +15,9 @@ inductive TriColor | black | white | chromatic
 inductive OctColor | black | white | green | blue | red | yellow | orange | hiZ
   deriving DecidableEq, Repr, Inhabited
 
+/-- `0x80 >> (pos % 8)`: the bit of pixel `pos` in a 1 bpp byte -/
+def oneBit (pos : Nat) : UInt8 := (0x80 : UInt8) >>> UInt8.ofNat (pos % 8)
+
 namespace Color
 def all : List Color := [.black, .white]
 def idx : Color → Nat | .black => 0 | .white => 1
@@ -25,7 +28,7 @@ def fromU8 (v : UInt8) : Option Color := if v = 0 then some .black else if v = 1
 def inverse : Color → Color | .white => .black | .black => .white
 /-- `ColorType::bitmask` → (mask, bits) -/
 def bitmask (c : Color) (_bwr : Bool) (pos : Nat) : UInt8 × Nat :=
-  let bit : UInt8 := 0x80 >>> (UInt8.ofNat (pos % 8))
+  let bit : UInt8 := oneBit pos
   match c with
   | .black => (~~~bit, 0)
   | .white => (~~~bit, bit.toNat)
@@ -42,7 +45,7 @@ def idx : TriColor → Nat | .black => 0 | .white => 1 | .chromatic => 2
 def getBitValue : TriColor → UInt8 | .white => 1 | _ => 0
 def getByteValue : TriColor → UInt8 | .white => 0xFF | _ => 0x00
 def bitmask (c : TriColor) (bwr : Bool) (pos : Nat) : UInt8 × Nat :=
-  let bit : UInt8 := 0x80 >>> (UInt8.ofNat (pos % 8))
+  let bit : UInt8 := oneBit pos
   match c with
   | .black => (~~~bit, 0)
   | .white => (~~~bit, bit.toNat)
@@ -102,11 +105,16 @@ def rgb888 : RgbDepth := ⟨255, 255, 255⟩
 def rgb565 : RgbDepth := ⟨31, 63, 31⟩
 def rgb555 : RgbDepth := ⟨31, 31, 31⟩
 
-/-- `From<Rgb888/565/555> for Color`: the three impls share this body -/
+/-- the brightness threshold of the three `From<Rgb*> for Color` impls: `255 * 3 / 2` for
+    Rgb888, half of the depth's maximal channel sum for Rgb565 / Rgb555 (fix b180c08) -/
+def Color.threshold (dp : RgbDepth) : Nat :=
+  if dp = rgb888 then 255 * 3 / 2 else (dp.mr + dp.mg + dp.mb) / 2
+
+/-- `From<Rgb888/565/555> for Color` -/
 def Color.fromRgb (dp : RgbDepth) (r g b : Nat) : Color :=
   if (r, g, b) = (0, 0, 0) then .black
   else if (r, g, b) = (dp.mr, dp.mg, dp.mb) then .white
-  else if r + g + b > 255 * 3 / 2 then .white else .black
+  else if r + g + b > Color.threshold dp then .white else .black
 
 /-- `From<Color> for Rgb*` -/
 def Color.toRgb (dp : RgbDepth) : Color → Nat × Nat × Nat
@@ -118,5 +126,10 @@ def TriColor.fromRgb888 (r g b : Nat) : TriColor :=
   if (r, g, b) = (0, 0, 0) then .black else if (r, g, b) = (255, 255, 255) then .white else .chromatic
 def TriColor.toRgb888 : TriColor → Nat × Nat × Nat
   | .black => (0, 0, 0) | .white => (255, 255, 255) | .chromatic => (255, 0, 0)
+
+/-- SPECIFICATION (C14): the brightness-nearest of black and white in a depth: nearer to white
+    than to black in the channel sum (no ties: the maximal sums 765, 125, 93 are odd) -/
+def nearestBW (dp : RgbDepth) (r g b : Nat) : Color :=
+  if 2 * (r + g + b) > dp.mr + dp.mg + dp.mb then .white else .black
 
 end EpdVerif
